@@ -102,7 +102,7 @@ def main():
              "kind_free_text": "rendered C++ compiled against a scripted mock integrator; seeded fault sequences, ddmin, replay files"},
         ],
         "checks": [CHECKS[k] for k in sorted(CHECKS)],
-        "notes": "See DESIGN.md. Exit codes: 0 held, 1 VIOLATION (replay file printed), 2 harness error. Known findings: known_findings.json.",
+        "notes": "See DESIGN.md. Exit codes: 0 held, 1 VIOLATION (replay file printed), 2 harness error. Known findings: known_findings.json (10 fixed, 0 open). Regression corpus: corpus/<property>/*.json, replayed by every run (VERIF_NO_CORPUS=1 switches it off). Seeded breaking changes used to evaluate the checks: seeded/.",
         "not_applicable": [{"property_id": k, "reason": v} for k, v in sorted(na.items())],
     }
     with open(os.path.join(VERIF, "MANIFEST.json"), "w") as f:
